@@ -176,6 +176,14 @@ func c17Door(r *core.Result, curve, doorName string, n int, seed int64) {
 			}
 			return fl[2], fl[3], name(ps[1].Curve()), nil
 		}
+		doors["UnFlatten(noCurveCheck=false)"] = func(x, y *big.Int) (*big.Int, *big.Int, string, error) {
+			// the optional flag spelled out with its default value
+			ps, err := crypto.UnFlattenECPoints(ec, []*big.Int{x, y, g.X, g.Y}, false)
+			if err != nil {
+				return nil, nil, "", err
+			}
+			return ps[0].X(), ps[0].Y(), name(ps[0].Curve()), nil
+		}
 		doors["UnFlatten[first]"] = func(x, y *big.Int) (*big.Int, *big.Int, string, error) {
 			ps, err := crypto.UnFlattenECPoints(ec, []*big.Int{x, y, g.X, g.Y})
 			if err != nil {
